@@ -527,7 +527,8 @@ def oracle_attached(case, ref, obs):
         if len(d['score']) != 6 or not all(close(a, b, abs_tol=0.0) for a, b in zip(d['score'], exp)):
             v.append(('score', where + ' score=%s expected=%s' % (d['score'], list(exp))))
         for tag in ('id_diag', 'id_sdiag'):
-            if d[tag] in ids:
+            # (the two holders of ONE design may be the same object; what must not happen is that DIFFERENT designs share one)
+            if d[tag] in ids and ids[d[tag]] != i:
                 v.append(('shared-diagnostics-object', where + ' shares its diagnostics object with design #%d' % ids[d[tag]]))
             ids[d[tag]] = i
     return [{'key': 'C04:%s:%s' % (case['method'].split('_')[0], k), 'msg': m} for k, m in v]
